@@ -156,7 +156,7 @@ class PfWorld(World):
 
     # ------------------------------------------------------------------
     def _H(self):
-        H = getattr(self.sim, "_PhaseField__old_psiP_e_pg")
+        H = simlib.priv(self.sim, "_PhaseField__old_psiP_e_pg")
         return np.array(H)
 
     def _check_splits(self, what):
